@@ -31,12 +31,41 @@ def run(tier, seed):
             if t.startswith("checker_panics") or t.startswith("downstream_panic"):
                 site = "panic@" + t.split("@")[-1] if "@" in t else t
             res.violation(t.split("@")[0], site, {"src": r.get("src", "")[:1200], "impl": r.get("impl"), "wf": r.get("wf"), "msg": r.get("msg"), "down": r.get("down")}, "")
+    # import leg (Imports.tla): programs split over files, checked by check_file on files written to disk
+    iwd = os.path.join(wd, "import")
+    os.makedirs(iwd, exist_ok=True)
+    cfg = os.path.join(iwd, "MC_Import.cfg")
+    write_cfg(cfg, constants={"MaxImp": 2 if tier == "quick" else 3}, invariants=["OrderFree", "TwiceSame", "Emit"])
+    icases = os.path.join(iwd, "cases.ndjson")
+    st = tlc_generate("MC_Import", cfg, icases, iwd, workers=NCPU, timeout=3000)
+    if st["violated"]:
+        raise ToolError("specification invariant violated in MC_Import: %s\n%s" % (st["violated"], st["tail"][-1500:]))
+    res.add_states(st)
+    res.cov["parts"]["tlc_cases_MC_Import"] = st["cases"]
+    it = os.path.join(iwd, "trace.ndjson")
+    run_harness_parallel("prog", icases, seed, 0, it, iwd, extra=["import"], k=8)
+    iv = tlc_validate("Trace_Import", it, iwd)
+    res.add_states(iv)
+    res.cov["traces_validated_against_impl"] += iv["lines"]
+    ibad = {}
+    for ln, det in iv["mismatches"]:
+        ibad.setdefault(ln, []).append(det.strip('"'))
+    irecs = read_lines(it, ibad.keys())
+    with open(it) as f:
+        for line in f:
+            r = json.loads(line)
+            res.count_case("import" + json.dumps(r.get("files", {}).get("r"), sort_keys=True), nontrivial=len(r.get("files", {}).get("r", {}).get("imports", [])) > 0)
+    for ln, tags in ibad.items():
+        r = irecs[ln]
+        for t in tags:
+            site = "panic@" + t.split("@")[-1] if "@" in t else "typing.rs check_file"
+            res.violation(t.split("@")[0], site, {"root": r.get("files", {}).get("r"), "library": "MC_Import.Lib (a b c d e n m)", "impl": r.get("impl"), "msg": r.get("msg"), "methods": r.get("ms"), "defs": r.get("defs")}, "check_file vs Imports.tla")
     res.rule = ("TLC (MC_Prog): every program of <=2 definitions named from {A,B} with repetition over a universe of bodies/actors containing one representative of every way to be ill-formed (undefined name, duplicate, "
                 "vacuous cycle, colliding labels incl. name/numeral collision, non-function method, duplicate method, two annotations, oneway with results, duplicate argument names, non-service actor, service constructor) with the "
                 "verdict of WellFormed.tla; harness: %d random programs (<=5 definitions, depth 3, awkward names), half generated valid and half with seeded defects, judged by WellFormed.tla in the referee. Every program is rendered "
-                "by the harness's printer, parsed and checked; accepted programs additionally run trace_type, subtype, equal and the four binding generators. non-trivial = source longer than 30 characters; distinct by source" % nrand)
+                "by the harness's printer, parsed and checked; accepted programs additionally run trace_type, subtype, equal and the four binding generators. non-trivial = source longer than 30 characters; distinct by source. Import leg (MC_Import): every root file with up to %d plain / service imports over a library of 7 files (service, service behind a name, duplicate definition, service constructor, nested plain and service imports) and a missing file, x 4 definition lists x 5 main services, checked by check_file on disk and refereed by Imports.tla (verdict, merged method names, merged definition names)" % (nrand, 2 if tier == "quick" else 3))
     res.cov["exhaustive"] = True
-    res.assumptions = ["imports are not part of this universe (check_file is exercised by the repository's tests only)"]
+    res.assumptions = ["import leg: the library of imported files is fixed (MC_Import.Lib); cyclic imports are not explored"]
     return res.finish()
 
 def replay(path):
